@@ -509,7 +509,8 @@ func Ladder(t *rapid.T, nx int) (int, [][]int, string) {
 
 // LongOddClauses draws a CNF over 34..50 variables with 2..4 long clauses (33..n+6 literals drawn with replacement:
 // repeated literals and complementary pairs occur, so some long clauses are tautologies) and 5..25 clauses of 1..3
-// literals. Code paths that treat long input clauses differently from short ones see both kinds side by side.
+// literals; two long clauses out of three are tightened: other clauses force all their literals but 1..3 false.
+// Code paths that treat long input clauses differently from short ones see both kinds side by side.
 func LongOddClauses(t *rapid.T) (int, [][]int) {
 	n := Uniform(t, 34, 50, "n")
 	var cls [][]int
@@ -533,6 +534,45 @@ func LongOddClauses(t *rapid.T) (int, [][]int) {
 			cl = append(cl, l)
 		}
 		cls = append(cls, cl)
+		if !taut && Chance(t, 2, 3, "tighten") {
+			// all literals of the long clause but 1..3 are forced false by other clauses: the long clause then matters
+			keep := map[int]bool{}
+			var kept []int
+			for j, r := 0, rapid.IntRange(1, 3).Draw(t, "keep"); j < r; j++ {
+				l := cl[Uniform(t, 0, len(cl)-1, "kept")]
+				if !keep[l] {
+					keep[l] = true
+					kept = append(kept, l)
+				}
+			}
+			units := rapid.Bool().Draw(t, "byUnits")
+			h := 0
+			seen := map[int]bool{}
+			for _, l := range cl {
+				if keep[l] || seen[l] {
+					continue
+				}
+				seen[l] = true
+				if units {
+					cls = append(cls, []int{-l})
+				} else {
+					if h == 0 {
+						n++
+						h = n
+					}
+					cls = append(cls, []int{-l, h}, []int{-l, -h})
+				}
+			}
+			for j, m := 0, rapid.IntRange(0, 2).Draw(t, "onKept"); j < m && len(kept) > 0; j++ {
+				c2 := []int{-kept[Uniform(t, 0, len(kept)-1, "k1")]}
+				if rapid.Bool().Draw(t, "withOther") {
+					if o := Lit(t, n, "o"); o != c2[0] && o != -c2[0] {
+						c2 = append(c2, o)
+					}
+				}
+				cls = append(cls, c2)
+			}
+		}
 	}
 	for i, k := 0, Uniform(t, 5, 25, "short"); i < k; i++ {
 		cls = append(cls, DistinctLits(t, n, rapid.IntRange(1, 3).Draw(t, "slen"), "s"))
